@@ -23,14 +23,15 @@ def lin_case(c):
     spec = c["spec"]
     n = len(spec["sources"])
     parts = []
+    # each source ALONE in the scene (the other source objects are removed, not just given amplitude 0: a defect by which
+    # one source's presence disturbs another's injection is linear in the amplitudes and would cancel out otherwise)
     for i in range(n):
         s = copy.deepcopy(spec)
-        for j, src in enumerate(s["sources"]):
-            src["amp"] = 1.0 if j == i else 0.0
+        s["sources"] = [copy.deepcopy(spec["sources"][i])]
+        s["sources"][0]["amp"] = 1.0
         parts.append(run(s, init_scale=0.0))
     s = copy.deepcopy(spec)
-    for src in s["sources"]:
-        src["amp"] = 0.0
+    s["sources"] = []
     parts.append(run(s, init_scale=1.0))
     amps = c["amps"]
     s = copy.deepcopy(spec)
